@@ -11,6 +11,7 @@ package driver
 //@ func (*records).Index
 //@   props C10
 //@   requires rs != nil && noNil(*rs)
+//@   requires [caller=Memory] [C09] [some-lock-held] GwLocks > 0 || GrLocks > 0
 //@   ensures [found] result1 ==> 0 <= result0 && result0 < len(*rs) && (*rs)[result0].key == key && (forall j int :: 0 <= j && j < result0 ==> (*rs)[j].key != key)
 //@   ensures [absent] !result1 ==> result0 == -1 && !hasKey(*rs, key)
 //@   ensures [readonly] *rs == old(*rs)
@@ -19,17 +20,20 @@ package driver
 //@ func records.Exists
 //@   props C10
 //@   requires noNil(rs)
+//@   requires [caller=Memory] [C09] [some-lock-held] GwLocks > 0 || GrLocks > 0
 //@   ensures [iff] result <==> hasKey(rs, key)
 
 //@ func records.Get
 //@   props C10
 //@   requires noNil(rs)
+//@   requires [caller=Memory] [C09] [some-lock-held] GwLocks > 0 || GrLocks > 0
 //@   ensures [found] hasKey(rs, key) ==> result != nil && result.key == key && (exists j int :: 0 <= j && j < len(rs) && rs[j] == result)
 //@   ensures [absent] !hasKey(rs, key) ==> result == nil
 
 //@ func (*records).removeAt
 //@   props C10
 //@   requires rs != nil && 0 <= index && index < len(*rs)
+//@   requires [caller=Memory] [C09] [write-lock-held] GwLocks > 0
 //@   ensures [len] len(*rs) == old(len(*rs)) - 1
 //@   ensures [returned] result == old((*rs)[index])
 //@   ensures [prefix] forall j int :: 0 <= j && j < index ==> (*rs)[j] == old((*rs)[j])
@@ -38,6 +42,7 @@ package driver
 //@ func (*records).Remove
 //@   props C10
 //@   requires rs != nil && noNil(*rs) && uniqueKeys(*rs)
+//@   requires [caller=Memory] [C09] [write-lock-held] GwLocks > 0
 //@   ensures [absent] !old(hasKey(*rs, key)) ==> r == nil && *rs == old(*rs)
 //@   ensures [found] old(hasKey(*rs, key)) ==> r != nil && r.key == key && len(*rs) == old(len(*rs)) - 1 && !hasKey(*rs, key)
 //@   ensures [others-kept] forall k string :: k != key && old(hasKey(*rs, k)) ==> hasKey(*rs, k)
@@ -45,6 +50,7 @@ package driver
 //@ func (*records).Replace
 //@   props C10
 //@   requires rs != nil && noNil(*rs) && rec != nil
+//@   requires [caller=Memory] [C09] [write-lock-held] GwLocks > 0
 //@   ensures [absent] !old(hasKey(*rs, key)) ==> result == nil
 //@   ensures [found] old(hasKey(*rs, key)) ==> result != nil && result.key == key && (exists j int :: 0 <= j && j < len(*rs) && (*rs)[j] == rec)
 //@   ensures [len] len(*rs) == old(len(*rs))
@@ -60,6 +66,7 @@ package driver
 //@ func (*records).Add
 //@   props C09 C10
 //@   requires rs != nil && noNil(*rs) && uniqueKeys(*rs) && (forall q int :: 0 <= q && q < len(*rs) ==> (*rs)[q].rls != nil) && (r != nil ==> r.rls != nil)
+//@   requires [caller=Memory] [C09] [write-lock-held] GwLocks > 0
 //@   ensures [nil-record] r == nil ==> result == nil && *rs == old(*rs)
 //@   ensures [existing-key-refused] r != nil && old(hasKey(*rs, r.key)) ==> result == ErrReleaseExists && *rs == old(*rs) && (forall j int :: 0 <= j && j < len(*rs) ==> (*rs)[j] == old((*rs)[j]))
 //@   ensures [absent-key-added] r != nil && !old(hasKey(*rs, r.key)) ==> result == nil && len(*rs) == old(len(*rs)) + 1 && (exists j int :: 0 <= j && j < len(*rs) && (*rs)[j] == r)
@@ -79,9 +86,33 @@ package driver
 
 // The memory driver's create-if-absent (sequential contract; the mutex around it is what makes it
 // atomic between goroutines — the lock discipline itself is not decided here).
+//@ func (*Memory).wlock
+//@   props C09
+//@   requires mem != nil
+//@   ensures [takes-the-write-lock] GwLocks == old(GwLocks) + 1 && GrLocks == old(GrLocks)
+
+//@ func (*Memory).rlock
+//@   props C09
+//@   requires mem != nil
+//@   ensures [takes-the-read-lock] GrLocks == old(GrLocks) + 1 && GwLocks == old(GwLocks)
+
+// the other entry points of the memory driver: their contracts only carry the lock-discipline
+// obligations (the record-list operations they call require the lock)
+//@ func (*Memory).Get
+//@   props C09
+//@   requires memWF(mem) && GwLocks >= 0 && GrLocks >= 0
+
+//@ func (*Memory).Update
+//@   props C09
+//@   requires memWF(mem) && rls != nil && rls.Info != nil && GwLocks >= 0 && GrLocks >= 0
+
+//@ func (*Memory).Delete
+//@   props C09
+//@   requires memWF(mem) && GwLocks >= 0 && GrLocks >= 0
+
 //@ func (*Memory).Create
 //@   props C09 C10
-//@   requires memWF(mem) && rls != nil && rls.Info != nil
+//@   requires memWF(mem) && rls != nil && rls.Info != nil && GwLocks >= 0 && GrLocks >= 0
 //@   ensures [existing-key-refused] old(memHas(mem, memNS(rls), rls.Name, key)) ==> result == ErrReleaseExists
 //@   ensures [created] result == nil ==> memHas(mem, memNS(rls), rls.Name, key)
 //@   ensures [well-formed] memWF(mem)
